@@ -396,16 +396,19 @@ func TestC20(t *testing.T) {
 		if vgate.Calls.Load() < 0 {
 			t.Fatal("unreachable")
 		}
-		triples := [][]int{{0, 1, 2}, {0, 1, 3}, {0, 2, 3}, {1, 2, 3}, {0, 3, 4}, {2, 3, 4}, {0, 1, 5}, {0, 2, 5}}
+		triples := c20Triples(false)
 		bound := 2
 		if thorough() {
-			bound = 3
-			triples = append(triples, []int{0, 1, 4}, []int{0, 2, 4}, []int{1, 3, 4}, []int{0, 1, 2, 3})
+			// thorough: more thread sets at 2 preemptions, and (below) the four basic triples at 3 preemptions
+			triples = c20Triples(true)
+			defer r.Explore(mc.Config{Name: "schedules-p3", Serial: true, SplitDepth: 5, DevBound: 3,
+				Rule: "the triples {W1,W2,R}, {W1,W2,V}, {W1,R,V}, {W2,R,V}: all schedules with at most 3 preemptions; same oracles"},
+				c20Body(t, c20Triples(false)[:4], false, 3))
 		}
 		rule := "threads = concurrent clients of one real store: W1 node-point writer (write, read-own-write, write), W2 edge-point writer, R reader (monotonic reads), V admin.storeVerify, X a client whose requests must be refused (new edge without node type, self edge, NaN) next to W1 and W2 / R%s; all triples; scheduling points = every message delivery, every SQL operation and every writeLock.Lock in store/sqlite.go; all schedules with at most %d preemptions; oracles: every request answered (no deadlock), acknowledged writes visible, reads never go back, final content = newest acknowledged writes, hashes consistent, storeMaint has nothing to repair"
 		extra := ", M admin.storeMaint (with V and a writer / reader)"
 		if thorough() {
-			extra = ", M admin.storeMaint, more triples with M, and W1 W2 R V together"
+			extra = ", M admin.storeMaint, more triples with M and X, and W1 W2 R V together"
 		}
 		r.Explore(mc.Config{Name: fmt.Sprintf("schedules-p%d", bound), Serial: true, SplitDepth: 4, DevBound: bound, SelfCheckEvery: 211, Rule: fmt.Sprintf(rule, extra, bound)}, c20Body(t, triples, false, bound))
 		sb := 1
@@ -529,11 +532,18 @@ func c20RacePart(r *mc.Report) {
 	r.Extra("race_pass", map[string]any{"iterations": res.Iterations, "threads_per_iteration": res.Threads, "wall_s": res.WallS, "kind": "sampling"})
 }
 
+// c20Triples: thread sets (indices into c20Threads: W1 W2 R V M X); the thorough list extends the quick one.
+func c20Triples(thorough bool) [][]int {
+	ts := [][]int{{0, 1, 2}, {0, 1, 3}, {0, 2, 3}, {1, 2, 3}, {0, 3, 4}, {2, 3, 4}, {0, 1, 5}, {0, 2, 5}}
+	if thorough {
+		ts = append(ts, []int{0, 1, 4}, []int{0, 2, 4}, []int{1, 3, 4}, []int{1, 2, 5}, []int{0, 1, 2, 3})
+	}
+	return ts
+}
+
 func init() {
-	t3 := [][]int{{0, 1, 2}, {0, 1, 3}, {0, 2, 3}, {1, 2, 3}, {0, 3, 4}, {2, 3, 4}}
-	t3t := append(append([][]int{}, t3...), []int{0, 1, 4}, []int{0, 2, 4}, []int{1, 3, 4}, []int{0, 1, 2, 3})
-	bodies["C20/schedules-p2"] = func(t *testing.T) mc.Body { return c20Body(t, t3, false, 2) }
-	bodies["C20/schedules-p3"] = func(t *testing.T) mc.Body { return c20Body(t, t3t, false, 3) }
+	bodies["C20/schedules-p2"] = func(t *testing.T) mc.Body { return c20Body(t, c20Triples(true), false, 2) }
+	bodies["C20/schedules-p3"] = func(t *testing.T) mc.Body { return c20Body(t, c20Triples(false)[:4], false, 3) }
 	bodies["C20/shutdown-p1"] = func(t *testing.T) mc.Body { return c20Body(t, [][]int{{0, 1}, {0, 2}}, true, 1) }
 	bodies["C20/shutdown-p2"] = func(t *testing.T) mc.Body { return c20Body(t, [][]int{{0, 1}, {0, 2}}, true, 2) }
 }
